@@ -414,116 +414,66 @@ class JoinedLines(AbstractValue):
     def abs_method(self, interp, name, args, kwargs):
         if name == 'count' and args == ['\n']:
             return len(self.lines)
+        if name == 'count' and len(args) == 2 and args[0] == '\n':
+            # count from an offset that is a line boundary: the newlines of the lines after it
+            rest = self.abs_getitem(interp, slice(args[1], None, None))
+            if isinstance(rest, JoinedLines):
+                return len(rest.lines)
         return Unknown('joined.%s' % name)
 
 
-class _ItemBuffer(AbstractValue):
-    """What ListItem.read re-tokenized for one item: a number of blocks and the blank-line flag."""
-
-    def __init__(self, blocks, loose):
-        self.blocks, self.loose = blocks, loose
-
-    def abs_len(self, interp):
-        return self.blocks
-
-    def abs_truth(self, interp):
-        return self.blocks > 0
-
-    def abs_getattr(self, interp, name):
-        if name == 'loose':
-            return self.loose
-        return Unknown('buffer.' + name)
-
-    def abs_setattr(self, interp, name, value):
-        if name == 'loose':
-            self.loose = value
-
-    def abs_is(self, interp, other):
-        return self is other
-
-
-class _ItemOutput(AbstractValue):
-    """ListItem.read's result with the layout the reader itself produces (read off an explored return value):
-    the buffer where it puts the buffer, the marker where it puts the marker."""
-
-    def __init__(self, template, buf, leader):
-        self.items = [buf if isinstance(x, tk.BlockBuffer) else leader if isinstance(x, AbsStr) else x for x in template]
-
-    def abs_getitem(self, interp, idx):
-        return self.items[idx]
-
-    def abs_iter(self, interp):
-        return iter(self.items)
-
-    def abs_len(self, interp):
-        return len(self.items)
+LOOSE_ROWS = [
+    # (source of one list - possibly followed by the start of another, loose flag of each of its items)
+    ('- a\n', [False]),
+    ('- a\n\n  b\n', [True]),                          # two blocks around a blank line
+    ('- a\n  b\n', [False]),
+    ('- a\n\n- b\n', [True, False]),                    # items separated by a blank line
+    ('- a\n- b\n\n', [False, False]),                   # blank lines after the last item
+    ('- a\n\n+ b\n', [False]),                          # the blank line separates two lists, not two items
+    ('1. a\n\n2) b\n', [False]),
+    ('* a\n\n  b\n- c\n', [True]),
+    ('1. a\n2. b\n\n3. c\n\n   d\n', [False, True, True]),
+    ('- a\n\n  b\n\n+ c\n', [True]),
+]
 
 
 def rule_last_item_loose(ctx, rep):
-    """The tight/loose computation of a list: an item is loose when a blank line was seen among its blocks. A
-    blank line after the only block of the item that turns out to be the last of its list (because the next
-    item has another marker type, so its line is handed back) separates nothing: List.read, interpreted with
-    scripted results of ListItem.read, must leave the last item loose only if it holds more than one block,
-    and must not touch the flag of the items before it."""
-    from . import c13
+    """The tight/loose computation of a list: an item is loose when a blank line was seen among its blocks or
+    between it and the next item of the same list. A blank line after the only block of the item that turns out
+    to be the last of its list (because the next item has another marker type, so its line is handed back)
+    separates nothing. List.read - with the item reader and the nested tokenizer it calls - is folded on one
+    source text of every class of that rule; the loose flags are read off the parse buffers in its result,
+    whatever the layout of that result."""
     model = ctx.model
     rule = 'R-LAST-ITEM-LOOSE'
     rep.rule(rule, 'a blank line after the only block of a list\'s last item does not make the list loose; other items keep their flag')
     lst = model.cls('block_token.List')
-    item = model.cls('block_token.ListItem')
     fw = model.cls('block_tokenizer.FileWrapper')
     rd = lst.lookup('read')[1]
-    ird = item.lookup('read')[1]
-    template = None
-    for trace, (kind, r, nested, w) in c13.explore_reader(model, item, nlines=3):
-        if kind == 'ret' and isinstance(r, tuple) and len(r) == 2 and isinstance(r[0], tuple) \
-                and sum(isinstance(x, tk.BlockBuffer) for x in r[0]) == 1 and sum(isinstance(x, AbsStr) for x in r[0]) == 1:
-            template = r[0]
-            break
-    if template is None:
-        raise AnalysisError('anchor vanished: ListItem.read does not return ((.. buffer .. marker ..), next marker)')
-    scenarios = [
-        ('a single item: one block, then blank lines', [(1, True, '-')], [False]),
-        ('a single item: two blocks around a blank line', [(2, True, '-')], [True]),
-        ('a single item: two blocks, no blank line', [(2, False, '-')], [False]),
-        ('two items separated by a blank line', [(1, True, '-'), (1, False, '-')], [True, False]),
-        ('two tight items, blank lines after the second', [(1, False, '-'), (1, True, '-')], [False, False]),
-        ('an item, a blank line, an item of another bullet', [(1, True, '-'), (1, True, '+')], [False]),
-        ('an ordered item, a blank line, an item with the other delimiter', [(1, True, '1.'), (1, False, '2)')], [False]),
-        ('an item of two blocks around a blank line, then an item of another bullet', [(2, True, '*'), (1, False, '-')], [True]),
-        ('three items, the middle one followed by a blank line', [(1, False, '1.'), (1, True, '2.'), (3, True, '3.')], [False, True, True]),
-    ]
+    active = blockproto.default_block_types(ctx)
     n = 0
-    for what, script, want in scenarios:
+    bad = []
+    for src, want in LOOSE_ROWS:
         rep.instance(rule)
-        it = Interp(model, loop_bound=8, while_bound=8)
+        it = Interp(model, loop_bound=32, while_bound=32)
         it.reset_run(Oracle())
-        bufs = [_ItemBuffer(b, l) for b, l, _ in script]
-        outs = [_ItemOutput(template, bufs[i], script[i][2]) for i in range(len(script))]
-        calls = []
-
-        def hook(interp, fi, args, kwargs, outs=outs, calls=calls):
-            i = len(calls)
-            calls.append(i)
-            if i >= len(outs):
-                raise Raised(ExcVal('StopIteration', ()))
-            return (outs[i], ('next-marker',) if i + 1 < len(outs) else None)
-        it.func_hooks[ird.qualname] = hook
-        w = it.construct(fw, [[AbsStr(label='line%d' % i) for i in range(4)]], {})
+        it.gstate[(PKG + '.block_token', '_token_types')] = list(active)
+        w = it.construct(fw, [src.splitlines(keepends=True)], {})
         try:
-            matches = it.call(it.getattr(lst, 'read'), [w], {})
-            got = [o.items[[isinstance(x, _ItemBuffer) for x in o.items].index(True)].loose for o in it.iterate(matches)] \
-                if not is_abstract(matches) else repr(matches)
+            res = it.call(it.getattr(lst, 'read'), [w], {})
+            got = [b.attrs.get('loose') for b in blockproto.parse_buffers(res)]
         except Raised as r:
             got = 'raises %s' % r.exc.kind
         ok = got == want
         n += 1
-        rep.obligation(rule, ok, {'scenario': what, 'loose flags': got, 'expected': want})
+        rep.obligation(rule, ok, {'source': src, 'loose flags': got, 'expected': want})
         if not ok:
-            rep.find(rule, rd.short, 'scenario:%s' % what,
-                     '%s: the items of the list come out with loose = %s, the rule gives %s (blocks, blank line seen, marker '
-                     'per item: %s)' % (what, got, want, script), loc(model.unit_of(rd), rd.node),
-                     witness='- a\n\n+ b\n')
+            bad.append((src, got, want))
+    if bad:
+        src, got, want = bad[0]
+        rep.find(rule, rd.short, 'row:%s' % src.replace('\n', '|'),
+                 'for the list %r the items come out with loose = %s, the rule gives %s (%d of %d rows differ)'
+                 % (src, got, want, len(bad), len(LOOSE_ROWS)), loc(model.unit_of(rd), rd.node), witness=src)
     rep.floor(rule, n, 8)
 
 
@@ -673,19 +623,28 @@ def rule_int_precedence(ctx, rep):
     n = 0
     bad = set()
     for trace, (kind, r, nested, w) in c13.explore_reader(model, li, nlines=3, active=default.block_types):
-        if kind != 'ret' or not isinstance(r, tuple) or len(r) != 2 or r[1] is None:
+        if kind != 'ret' or r is None:
             continue
+        # the marker of the next item, wherever the result carries it: strings taken from a line other than the
+        # item's own first line (the re-tokenized buffer itself is not looked into)
         idxs = set()
-        for x in (r[1] if isinstance(r[1], tuple) else [r[1]]):
-            if isinstance(x, AbsStr):
-                j = c13.line_index(x.prov)
-                if j is not None:
-                    idxs.add(j)
+
+        def strings(v):
+            if isinstance(v, AbsStr):
+                j_ = c13.line_index(v.prov)
+                if j_ is not None:
+                    idxs.add(j_)
+            elif isinstance(v, (tuple, list)):
+                for x in v:
+                    strings(x)
+            elif isinstance(v, dict):
+                for x in v.values():
+                    strings(x)
+        strings(r)
+        idxs.discard(0)     # the item's own marker
         if len(idxs) != 1:
             continue
         j = idxs.pop()
-        if j == 0:
-            continue        # the item's own marker
         n += 1
         declined = any(k == ('interrupts', j - 1) and v is False for k, v in trace)
         if not declined:
